@@ -482,10 +482,7 @@ fn judge_mutant_inner(run: &Sink, targets: &BTreeMap<String, Target>, c: &Case) 
     let lo = s.min(t.store.len().saturating_sub(1));
     let class = t.classes[t.tab[lo] as usize].clone();
     let reg = c02::region(&t.boxes, lo);
-    let kind_name = match &c.m {
-        Mutation::Flip { .. } => "flip",
-        Mutation::Edit(e) => e.kind(),
-    };
+    let kind_name = c02::mutation_kind(&c.m);
     let r1 = match rt(&m, &t.ctx) {
         Err(p) => {
             run.count("b:parser-panicked");
@@ -604,14 +601,16 @@ fn mutant_cases(run: &Run, targets: &BTreeMap<String, Target>) -> Vec<Case> {
     v
 }
 
-const WORK: &str = "/verif/work/C18";
+fn work_dir() -> String {
+    vh::core::verif_root().join("work/C18").to_string_lossy().to_string()
+}
 const WORKER_ENV: &str = "VERIF_C18_WORKER";
 
 fn main() {
     vh::quiet_panics();
     let run = Run::from_args("C18", "exploration");
     if let Ok(spec) = std::env::var(WORKER_ENV) {
-        c02::worker_main(&run, WORK, &spec, &mutant_cases, &judge_mutant);
+        c02::worker_main(&run, &work_dir(), &spec, &mutant_cases, &judge_mutant);
     }
     run.set_rule("(a) stores produced by Builder::sign from generated definitions: claim v1/v2, 7 signature algorithms, titles, hash algorithms, 0-4 assertions (CBOR/JSON/repeated label/c2pa.metadata/long label, payload sizes around the CBOR length boundaries up to 64 KiB), claim thumbnail, 0-3 ingredients (unsigned, signed v1/v2, signed chain, compressed, legacy fixtures; with thumbnails = data boxes in v1), flows create / edit / edit of a chain / update manifest / update manifest with redaction, Brotli compression, embedded or sidecar; oracle rt(s) == s. Non-trivial = at least 2 manifests or a non-default feature. (b) mutants of six signed sidecar stores (C02 mutator: bit flips and JUMBF structure edits) that store_roundtrip accepts; oracle rt(rt(m)) == rt(m) and report(read(rt(m))) == report(read(m)). Non-trivial = accepted mutant that differs from its origin in a box header / description box or by a structure edit.");
     run.assume("the hook verif_hooks::store_roundtrip is exactly Store::from_jumbf_with_context followed by to_jumbf_internal(0)");
@@ -654,7 +653,7 @@ fn main() {
     }
     let cases = mutant_cases(&run, &targets);
     let table = if run.replay.is_none() {
-        c02::evaluate_sharded(&run, WORK, WORKER_ENV, run.scale(8, 16), &targets, &cases)
+        c02::evaluate_sharded(&run, &work_dir(), WORKER_ENV, run.scale(8, 16), &targets, &cases)
     } else {
         Default::default()
     };
